@@ -293,3 +293,126 @@ example : Prog.prun exampleWorldR (Procfs.reopen envR 3 O_RDONLY) = .ok 50 := ex
 
 example : Sys.procSubpath 1023 = .ok (b!"fd/" ++ Path.decimal 1023) := C09_proc_subpath_total 1023 (by decide)
 example : parseDigits (Path.decimal 40960) = 40960 := parse_decimal _
+
+/-! ## `path_strip_trailing_slash` (the first thing `open_follow` does to its sub-path)
+
+The trailing slashes of the caller's sub-path become `O_DIRECTORY`; the function is
+specified here for every byte string. -/
+
+section Strip
+open Path
+
+
+theorem dropWhile_decomp (l : Bytes) :
+    ∃ k, l = List.replicate k slash ++ l.dropWhile (· = slash) ∧
+      (l.dropWhile (· = slash)).head? ≠ some slash := by
+  induction l with
+  | nil => exact ⟨0, rfl, by simp⟩
+  | cons a t ih =>
+    by_cases h : a = slash
+    · obtain ⟨k, hk, hh⟩ := ih
+      refine ⟨k + 1, ?_, ?_⟩
+      · subst h
+        simp only [List.dropWhile_cons, decide_true, ↓reduceIte, List.replicate_succ, List.cons_append]
+        exact congrArg _ hk
+      · subst h; simpa [List.dropWhile_cons] using hh
+    · refine ⟨0, ?_, ?_⟩
+      · simp [h]
+      · simp [h]
+
+/-- the stripped form: a prefix of `p` followed only by slashes, not itself ending in a slash -/
+theorem stripped_decomp (p : Bytes) :
+    ∃ k, p = (p.reverse.dropWhile (· = slash)).reverse ++ List.replicate k slash ∧
+      (p.reverse.dropWhile (· = slash)).reverse.getLast? ≠ some slash := by
+  obtain ⟨k, hk, hh⟩ := dropWhile_decomp p.reverse
+  refine ⟨k, ?_, ?_⟩
+  · have := congrArg List.reverse hk
+    simpa using this
+  · simpa [List.getLast?_reverse] using hh
+
+/-- `path_strip_trailing_slash`, specified: the result is the input with `k` trailing slashes
+removed, the flag says whether any were (`k > 0`), and the result ends in a slash only when it
+is the lone `/` that stands for an all-slash input -/
+theorem C09_strip_spec (p : Bytes) :
+    ∃ k, p = (stripTrailingSlash p).1 ++ List.replicate k slash ∧
+      ((stripTrailingSlash p).2 = true ↔ 0 < k) ∧
+      ((stripTrailingSlash p).1.getLast? = some slash → (stripTrailingSlash p).1 = [slash]) := by
+  obtain ⟨k, hk, hl⟩ := stripped_decomp p
+  unfold stripTrailingSlash
+  dsimp only
+  generalize (p.reverse.dropWhile (· = slash)).reverse = s at hk hl
+  have hlen : p.length = s.length + k := by
+    have := congrArg List.length hk
+    simpa using this
+  by_cases hs : s = []
+  · subst hs
+    simp only [List.nil_append] at hk
+    simp only [↓reduceIte]
+    by_cases h1 : p.length > 1
+    · simp only [h1, ↓reduceIte]
+      refine ⟨k - 1, ?_, by simp at hlen; simp; omega, fun _ => trivial⟩
+      have hk1 : k = (k - 1) + 1 := by simp at hlen; omega
+      rw [hk, hk1, List.replicate_succ]
+      simp
+    · simp only [h1, ↓reduceIte]
+      refine ⟨0, by simp, by simp, ?_⟩
+      intro hg
+      have hk1 : k ≤ 1 := by simp at hlen; omega
+      match k, hk1 with
+      | 0, _ => subst hk; simp at hg
+      | 1, _ => rw [hk]; rfl
+  · simp only [hs, ↓reduceIte]
+    by_cases h2 : s.length = p.length
+    · simp only [h2, ↓reduceIte]
+      have hk0 : k = 0 := by omega
+      subst hk0
+      simp only [List.replicate_zero, List.append_nil] at hk
+      refine ⟨0, by simp, by simp, ?_⟩
+      intro hg; rw [hk] at hg; exact absurd hg hl
+    · simp only [h2, ↓reduceIte]
+      exact ⟨k, hk, by simp; omega, fun hg => absurd hg hl⟩
+
+/-- the flag (which makes `open_follow` add `O_DIRECTORY`) is set exactly when the path was changed -/
+theorem C09_strip_flag_iff_changed (p : Bytes) :
+    (stripTrailingSlash p).2 = true ↔ (stripTrailingSlash p).1 ≠ p := by
+  obtain ⟨k, hk, hf, _⟩ := C09_strip_spec p
+  rw [hf]
+  have hlen := congrArg List.length hk
+  simp only [List.length_append, List.length_replicate] at hlen
+  constructor
+  · intro h0 he
+    rw [he] at hlen; omega
+  · intro hne
+    cases k with
+    | zero => simp at hk; exact absurd hk.symm hne
+    | succ n => omega
+
+/-- a path without a trailing slash is left alone -/
+theorem C09_strip_fixed (p : Bytes) (h : p.getLast? ≠ some slash) : stripTrailingSlash p = (p, false) := by
+  obtain ⟨k, hk, hf, _⟩ := C09_strip_spec p
+  have hk0 : k = 0 := by
+    cases k with
+    | zero => rfl
+    | succ n =>
+      exfalso; apply h; rw [hk, List.replicate_succ']; simp
+  subst hk0
+  have h1 : (stripTrailingSlash p).1 = p := by simpa using hk.symm
+  have h2 : (stripTrailingSlash p).2 = false := by
+    cases hb : (stripTrailingSlash p).2 with
+    | false => rfl
+    | true => exact absurd (hf.mp hb) (by omega)
+  exact Prod.ext h1 h2
+
+example : stripTrailingSlash b!"fd/3//" = (b!"fd/3", true) := by decide
+example : stripTrailingSlash b!"///" = (b!"/", true) := by decide
+example : stripTrailingSlash b!"/" = (b!"/", false) := by decide
+
+/-- stripping is idempotent: what `open_follow` works with needs no second pass -/
+theorem C09_strip_idempotent (p : Bytes) :
+    stripTrailingSlash (stripTrailingSlash p).1 = ((stripTrailingSlash p).1, false) := by
+  obtain ⟨_, _, _, hg⟩ := C09_strip_spec p
+  by_cases h : (stripTrailingSlash p).1.getLast? = some slash
+  · rw [hg h]; decide
+  · exact C09_strip_fixed _ h
+
+end Strip
